@@ -55,6 +55,8 @@ EXPRS = [
     ("GPL-2.0-or-later WITH Classpath-exception-2.0", ["GPL-2.0-or-later", "Classpath-exception-2.0"]),
     ("LicenseRef-x+ AND (MIT)", ["LicenseRef-x+", "MIT"]),
     ("LicenseRef-a_b", ["LicenseRef-a_b"]),  # malformed LicenseRef (underscore): not a valid identifier
+    ("(MIT OR Foo) AND MIT", ["MIT", "Foo", "MIT"]),  # a repeated identifier: Boolean absorption must not hide 'Foo'
+    ("GPL-3.0 OR (GPL-3.0 AND LicenseRef-x)", ["GPL-3.0", "GPL-3.0", "LicenseRef-x"]),
 ]
 PARSED = [None if e is None else _LICENSING.parse(e) for e, _ in EXPRS]
 # provision forms of one identifier in LICENSES/
